@@ -29,6 +29,7 @@ RULE = ('Hypothesis generates cube packages and per-file packages (SED files in 
 RULE += (' ' + 'Also varied: the result re-ranked by FitInfo.sort() before plotting.')
 RULE += (' ' + 'A third of the cases regenerate the package in the same directory with other fluxes, refit and plot again.')
 RULE += (' ' + 'Nearly half of the cases hand one or two further sources (same Fitter, other photometry) to the same plot() call, before and/or after the generated one; the curves of every source are examined.')
+RULE += (' ' + 'The wavelength axis of the cube is typed in micron, nm, mm or Angstrom.')
 ASSUMPTIONS = [
     'curves are compared at 1.5e-3 relative (plot.py rounds kpc to 3.086e21 cm and c to 3e8 m/s)',
     'for apertures beyond the table the composite curve may use 0.999 x the largest aperture: any value between the '
@@ -80,6 +81,18 @@ def cases(draw):
         if any(len(x) > 30 for x in c['grid']['names']):
             # convolved-flux files hold 30-character names: longer ones only exist in cube packages
             c['grid']['names'] = ['m%03d_%s' % (i, x[-8:]) for i, x in enumerate(c['grid']['names'])]
+    # the unit the wavelength axis of the cube is typed in
+    c['cube_wav_unit'] = draw(st.sampled_from(['um', 'um', 'nm', 'mm', 'AA']))
+    if c['cube_wav_unit'] != 'um':
+        # only where the typed numbers convert back to exactly the fitted wavelengths: a wavelength that moves by one ulp may
+        # leave the extinction law at an end node (the fit reddens at the wavelength asked for, the plot at the tabulated
+        # one), which is a matter of rounding and not of this property
+        from astropy import units as u_
+        name, fac = gen.CUBE_WAV_UNITS[c['cube_wav_unit']]
+        ends = (c['law']['wav'][0], c['law']['wav'][-1])
+        if not all(float(((f['wav'] * fac) * u_.Unit(name)).to(u_.micron).value) == f['wav'] for f in c['filters']) or \
+                any(abs(f['wav'] - e) <= 1e-6 * e for f in c['filters'] for e in ends):
+            c['cube_wav_unit'] = 'um'
     c['sed_type'] = draw(st.sampled_from(['interp', 'largest', 'largest+smallest', 'all']))
     c['nsel'] = draw(st.integers(1, 5))
     c['input'] = draw(st.sampled_from(['object', 'file']))
@@ -250,6 +263,7 @@ def run_case(case, ctx):
                 labels.add('per_file_package_' + case.get('sed_layout', 'flat'))
             else:
                 labels.add('cube_package')
+                labels.add('cube_wavelengths_in_' + case.get('cube_wav_unit', 'um'))
             with must_succeed('Fitter()'), quiet():
                 fitter = gen.make_fitter(mdir, case, case['av_range'], distance_range=dr)
             # the sources of this plot() call: the generated one plus its companions (same flags, other photometry)
